@@ -146,7 +146,11 @@ def run_group(gs):
                 if isinstance(solver.user_problem, RecordingProblem):
                     solver.user_problem.fault = make_fault(rs.get("fault"))
             else:
-                rp = RecordingProblem(prob, policy=rs.get("policy", "fresh"), fault=make_fault(rs.get("fault")))
+                if rs.get("same_problem_as") is not None:
+                    rp = solvers[rs["same_problem_as"]].user_problem      # the very same problem object, another solver
+                    rp.fault = make_fault(rs.get("fault"))
+                else:
+                    rp = RecordingProblem(prob, policy=rs.get("policy", "fresh"), fault=make_fault(rs.get("fault")))
                 scaling = rs.get("scaling")
                 if scaling is not None:
                     from pygradflow.scale import Scaling
@@ -168,7 +172,10 @@ def run_group(gs):
                     from pygradflow.params import ScalingType
 
                     if pk["scaling_type"] not in (ScalingType.NoScaling, ScalingType.Custom):
-                        pk["scaling_primal"] = np.array(x0, copy=True)
+                        sp = np.array(x0, copy=True)
+                        if rs.get("scaling_point_shift"):
+                            sp = np.clip(sp + float(rs["scaling_point_shift"]), prob.var_lb, prob.var_ub)
+                        pk["scaling_primal"] = sp
                         pk["scaling_dual"] = np.array(y0, copy=True)
                 shared = rs.get("share_params_with")
                 params = solvers[shared].params if shared is not None else Params(**pk)
